@@ -112,6 +112,13 @@ func runHistory(r *core.Run, cid string, L int) {
 			break
 		}
 	}
+	if strings.HasSuffix(cid, "/0") {
+		// one history per run ends with well over a hundred accepted receives on one chain, so that the comparison of
+		// the receipt / acknowledgement lists with the accepted set below covers lists longer than any page size
+		for k := 0; k < 130; k++ {
+			h.tssTraffic("fresh-bulk")
+		}
+	}
 	// closing steps: a TSS-numbered packet with a sequence >= 2^63 and its immediate replay
 	h.tssTraffic("fresh-high")
 	h.tssTraffic("replay-last")
@@ -161,6 +168,9 @@ func (h *hist) tssTraffic(mode string) {
 		}
 		n = h.tssLastNode
 	}
+	if mode == "fresh-bulk" {
+		n = s.W.Nodes[0]
+	}
 	mk := func(seq uint64, amount int64, receiver string) []byte {
 		td := packettypes.TransferData{Receiver: receiver, Amount: big.NewInt(amount).FillBytes(make([]byte, 32)), Token: "0x00000000000000000000000000000000000000aa", OriToken: ""}
 		tdb, _ := td.ABIPack()
@@ -178,11 +188,11 @@ func (h *hist) tssTraffic(mode string) {
 	if mode == "replay-last" {
 		accepted = []string{h.tssLastKey}
 	}
-	if mode != "replay-last" && (len(accepted) == 0 || s.Rng.Intn(3) == 0 || mode == "fresh-high") {
+	if mode != "replay-last" && (len(accepted) == 0 || s.Rng.Intn(3) == 0 || mode == "fresh-high" || mode == "fresh-bulk") {
 		// a TSS-secured chain numbers its packets itself: any uint64, in any order (boundary values included)
 		h.tssSeq++
 		seq := h.tssSeq
-		if s.Rng.Intn(2) == 0 {
+		if s.Rng.Intn(2) == 0 && mode != "fresh-bulk" {
 			seq = core.GenUint64(s.Rng)
 		}
 		if mode == "fresh-high" {
